@@ -10,7 +10,7 @@ CLASSES = [b"ABCDEFGHIJKLMNOPQRSTUVWXYZ", b"abcdefghijklmnopqrstuvwxyz", b"01234
            bytes(range(128, 256)), bytes(range(0, 32)), b"!\"#$%&'()*+,-./:;<=>?@[\\]^_"]
 
 
-def run_tlc_lines(drv, spec, cfg, env, workdir, outfile, extra=(), workers=16, timeout=3000, simulate=False):
+def run_tlc_lines(drv, spec, cfg, env, workdir, outfile, extra=(), workers=16, timeout=14400, simulate=False):
     """run TLC, keep only the printed JSON lines in outfile; return (states generated, distinct)"""
     meta = os.path.join(workdir, "states-" + spec)
     cmd = ["timeout", str(timeout), drv.TLC, "-workers", str(workers), "-config", os.path.join(drv.SPEC, cfg),
@@ -48,7 +48,7 @@ def run_tlc_lines(drv, spec, cfg, env, workdir, outfile, extra=(), workers=16, t
 
 
 def replay_c04(drv, binary, infile, resfile):
-    p = subprocess.run([binary, "replay", "c04", "--in", infile, "--out", resfile], stdout=subprocess.PIPE, stderr=subprocess.PIPE, text=True, timeout=1800)
+    p = subprocess.run([binary, "replay", "c04", "--in", infile, "--out", resfile], stdout=subprocess.PIPE, stderr=subprocess.PIPE, text=True, timeout=7200)
     if p.returncode != 0:
         raise drv.ToolError("replay c04 failed: " + p.stderr[-2000:])
     mism, summary = [], None
